@@ -8,7 +8,7 @@ MANIFEST = dict(
    note="Trusted: Lean kernel; axioms propext/Classical.choice/Quot.sound only; the translator (regexp/syntax AST -> Lean term; validated by comparing Re.accepts with Go regexp on every generated case); the specification automata in Model/FormatSpec.lean as the reading of the documented formats; Go regexp semantics as the reading of a JSON-Schema pattern. Parser-based validators (netip.ParseAddr/ParsePrefix, time.Parse) are modelled by hand transcription (netip: by the definition itself) validated on generated cases and tied by a go/ast structure fingerprint of the validator functions; time.Parse(RFC3339) has no all-strings theorem. IPv6 family on strings with '.' or '%': two independent readings of RFC 4291 (automaton and list-based) vs the library on generated cases.",
    design="DESIGN.md §5 C20; notes/C20.md")
 
-MODULES = ["Gozod.Proofs.C20", "Gozod.Proofs.C20DateTime", "Gozod.Proofs.C20Parsers", "Gozod.Proofs.C20Rfc3339"]
+MODULES = ["Gozod.Proofs.C20", "Gozod.Proofs.C20DateTime", "Gozod.Proofs.C20Parsers", "Gozod.Proofs.C20Rfc3339", "Gozod.Proofs.C20V6Dot", "Gozod.Proofs.C20Base64URL"]
 REGEX_FORMATS = ["ipv4", "hex", "e164", "mac", "macdash", "base64", "uuid", "uuidv4", "uuidv6", "uuidv7", "guid"]
 OPTION_JOBS = ["macdot"] + ["tmo_" + p for p in "nm01239"]
 DTO = ["%s_%s_%s" % (p, o, l) for p in "nm01239" for o in "01" for l in "01"]   # IsoDateTime(options): precision x offset x local
@@ -32,14 +32,20 @@ THEOREMS = (["Gozod.C20.bisim_sound", "Gozod.C20.bisim_sound_full"]
     + ["Gozod.C20.goDate10", "Gozod.C20.isoDate10", "Gozod.C20.goDate_length", "Gozod.C20.c20_isodate", "Gozod.C20.run_incl", "Gozod.C20.uuid_incl"]
     + ["Gozod.C20.c20_uuidp%s%s" % (v, p) for v in "467" for p in ("", "_pattern")]
     # validator side of ISO date-time: guard pattern AND the transcription of time.Parse(RFC3339) = RFC 3339, all strings
-    + ["Gozod.C20.tail_spec", "Gozod.C20.goDatePrefix_split", "Gozod.C20.tail_guard_go", "Gozod.C20.c20_isodatetime"])
+    + ["Gozod.C20.tail_spec", "Gozod.C20.goDatePrefix_split", "Gozod.C20.tail_guard_go", "Gozod.C20.c20_isodatetime"]
+    # IPv6 / CIDRv6 patterns on the strings with a dotted quad: all strings without '%' outside the excluded region Fmt.*QuadDefect; then all strings
+    + ["Gozod.C20.ipv6_octet_quot", "Gozod.C20.cidrv6_octet_quot", "Gozod.C20.c20_ipv6_pattern_nozone", "Gozod.C20.c20_cidrv6_pattern_nozone",
+       "Gozod.C20.c20_ipv6_defects_excluded", "Gozod.C20.run_false_of_foreign", "Gozod.C20.c20_ipv6_pattern_partial_all", "Gozod.C20.c20_cidrv6_pattern_partial_all"]
+    # validator side of Base64URL: pattern AND the length rule = RFC 4648 §5, all strings
+    + ["Gozod.C20.run_inv", "Gozod.C20.base64url_len", "Gozod.C20.badLen_len", "Gozod.C20.c20_base64url"])
 
 # certificate job -> format name of the correspondence
 JOB_FORMAT = {"isodatetime_optsec": "isodatetime", "isodatetime_partial": "isodatetime", "base64url_partial": "base64url",
               "dtt_rfc_optsec": "isodatetime", **{"dtt_" + x: "dto_" + x for x in DTO},
-              "ipv6_nopct": "ipv6", "ipv6_partial": "ipv6", "cidrv6_nopct": "cidrv6", "cidrv6_partial": "cidrv6"}
+              "ipv6_nopct": "ipv6", "ipv6_partial": "ipv6", "cidrv6_nopct": "cidrv6", "cidrv6_partial": "cidrv6",
+              "ipv6_dot": "ipv6", "cidrv6_dot": "cidrv6"}
 # jobs whose certificate the proof module imports (a `differ` there breaks a theorem)
-REQUIRED_JOBS = set(REGEX_FORMATS) | {"cidrv4", "isodate", "isodatetime_optsec", "isodatetime_partial", "base64url_partial"} | set(OPTION_JOBS) | {"ipv6_partial", "cidrv6_partial"} | set(TAIL_JOBS)
+REQUIRED_JOBS = set(REGEX_FORMATS) | {"cidrv4", "isodate", "isodatetime_optsec", "isodatetime_partial", "base64url_partial"} | set(OPTION_JOBS) | {"ipv6_partial", "cidrv6_partial", "ipv6_dot", "cidrv6_dot"} | set(TAIL_JOBS)
 
 GEN = os.path.join(C.LEAN, "Gozod", "Gen")
 
